@@ -161,6 +161,12 @@ def build(extra_flags=(), targetos="Linux", only_units=None, use_cache=True):
                     raise AnalysisBroken("cannot generate %s: %s" % (u, r.stderr[-300:]))
         if only_units:
             units = {u: f for u, f in units.items() if u in only_units}
+        # concurrent checks on a cold cache must not see each other's half-written files: extract into a private
+        # directory and publish it with one rename
+        final = cdir
+        if use_cache:
+            os.makedirs(CACHE, exist_ok=True)
+            cdir = tempfile.mkdtemp(prefix=key + ".part-", dir=CACHE)
         os.makedirs(cdir, exist_ok=True)
         jobs = [(srcdir, u, fl + list(extra_flags), os.path.join(cdir, u + ".json"))
                 for u, fl in units.items()]
@@ -191,6 +197,10 @@ def build(extra_flags=(), targetos="Linux", only_units=None, use_cache=True):
                 facts[u] = json.load(f)
         meta["cache"] = "miss" if use_cache else "off"
         if use_cache:
+            try:
+                os.rename(cdir, final)
+            except OSError:
+                shutil.rmtree(cdir, ignore_errors=True)     # another run published the same key first
             _prune_cache(keep=key)
         return facts, links, meta
     finally:
@@ -204,7 +214,7 @@ def _prune_cache(keep, maxn=12):
         return
     ents.sort(reverse=True)
     for _, d in ents[maxn:]:
-        if d != keep:
+        if d != keep and ".part-" not in d:
             shutil.rmtree(os.path.join(CACHE, d), ignore_errors=True)
 
 
